@@ -137,41 +137,7 @@ func (v *vdrRun) monitors() {
 		forkByDir[v.rel(f.Path)] = f
 	}
 	// ---- spec-level volatility and retains from the program
-	volatile := map[string]bool{} // node fq -> files may be reclaimed
-	exempt := map[string]bool{}
-	type ret struct{ node, out string }
-	var retains []ret
-	unresolvedRetain := false
-	v.walkCalls(func(fq string, call *syntax.CallStm, callable syntax.Callable, parent *syntax.Pipeline, prefix string) {
-		switch c := callable.(type) {
-		case *syntax.Stage:
-			sv := v.stageVol[c.Id]
-			isVol := sv == "strict" || (call.Modifiers != nil && call.Modifiers.Volatile)
-			if v.spec.VdrMode == "strict" && sv != "false" {
-				isVol = true
-			}
-			if v.spec.VdrMode == "strict" && sv == "false" && !isVol {
-				exempt[fq] = true
-			}
-			volatile[fq] = isVol
-			if c.Retain != nil {
-				for _, rp := range c.Retain.Params {
-					retains = append(retains, ret{fq, rp.Id})
-				}
-			}
-		case *syntax.Pipeline:
-			if c.Retain != nil {
-				for _, ref := range c.Retain.Refs {
-					target := v.r.Ast.Callables.Table[calleeOf(c, ref.Id)]
-					if _, ok := target.(*syntax.Stage); ok {
-						retains = append(retains, ret{fq + "." + ref.Id, ref.OutputId})
-					} else {
-						unresolvedRetain = true
-					}
-				}
-			}
-		}
-	})
+	volatile, exempt, retains, unresolvedRetain := v.specVolatility()
 	// ---- the named set: top-level outputs (before post-processing) and retained outputs
 	var named []string
 	topDir := v.r.Ast.Call.Id + "/fork0"
@@ -467,6 +433,46 @@ func (v *vdrRun) monitors() {
 	}
 	v.res.Canon = v.spec.VdrMode + "|" + strings.Join(cs, ",")
 	v.res.Nontrivial = nVolWritten > 0 && len(v.gone) > 0
+}
+
+type vdrRetain struct{ node, out string }
+
+// specVolatility: from the program text and the VDR mode, which nodes are
+// volatile stages, which opted out in strict mode, and the retain declarations.
+func (v *vdrRun) specVolatility() (volatile, exempt map[string]bool, retains []vdrRetain, unresolvedRetain bool) {
+	volatile = map[string]bool{} // node fq -> files may be reclaimed
+	exempt = map[string]bool{}
+	v.walkCalls(func(fq string, call *syntax.CallStm, callable syntax.Callable, parent *syntax.Pipeline, prefix string) {
+		switch c := callable.(type) {
+		case *syntax.Stage:
+			sv := v.stageVol[c.Id]
+			isVol := sv == "strict" || (call.Modifiers != nil && call.Modifiers.Volatile)
+			if v.spec.VdrMode == "strict" && sv != "false" {
+				isVol = true
+			}
+			if v.spec.VdrMode == "strict" && sv == "false" && !isVol {
+				exempt[fq] = true
+			}
+			volatile[fq] = isVol
+			if c.Retain != nil {
+				for _, rp := range c.Retain.Params {
+					retains = append(retains, vdrRetain{fq, rp.Id})
+				}
+			}
+		case *syntax.Pipeline:
+			if c.Retain != nil {
+				for _, ref := range c.Retain.Refs {
+					target := v.r.Ast.Callables.Table[calleeOf(c, ref.Id)]
+					if _, ok := target.(*syntax.Stage); ok {
+						retains = append(retains, vdrRetain{fq + "." + ref.Id, ref.OutputId})
+					} else {
+						unresolvedRetain = true
+					}
+				}
+			}
+		}
+	})
+	return
 }
 
 // supersededByReset: the file was written by an attempt whose directory was
